@@ -330,6 +330,7 @@ def gen_coeffs():
     out.append('def tridiagShapeOk : Bool := %s' % ('true' if all(p_ in tb for p_ in tpat) and 'tridiag_premalloc(a,b,c,r,u,n);' in tb2 else 'false'))
     # per-kernel wiring: Mfunc call argument lists, bc guards, bc terms, flat index
     out.append(gen_kernel_wiring())
+    out.append(gen_kernel_sigs())
     out.append('end C')
     # ---- Python side
     path = os.path.join(REPO, 'dadi', 'Integration.py')
@@ -347,12 +348,15 @@ def gen_coeffs():
     out.append(gen_compute_dt(src, fns, path))
     out.append(gen_precalc(src, fns, path))
     out.append(gen_driver_wiring(src, fns, path))
+    out.append(gen_driver_programs(src, fns, path))
     out.append('end Py')
     out.append('end Gen\nend DadiVerif\n')
     return '\n'.join(out)
 
 AXN = ['x', 'y', 'z', 'a', 'b']
 GRIDN = ['xx', 'yy', 'zz', 'aa', 'bb']
+
+_KERNEL_ROLES = {}
 
 def gen_kernel_wiring():
     """For each kernel implicit_{d}D{axis}: which migration parameter is paired with which
@@ -439,6 +443,8 @@ def gen_kernel_wiring():
             strides_ok = (terms == expect)
             wb = re.search(r'phi\[(.*?)\] = temp\[\w\w\];', body1)
             # 4D/5D last axis writes in place via &phi[...]
+            _KERNEL_ROLES[(d, ax)] = dict(name=name, path=path, body=body1, args=args, nu=nu, migs=list(migs), coord_axes=list(coord_axes),
+                                          gamma=gam, h=hh, vargs=vargs, vfunc=mv.group(1))
             rows.append(dict(d=d, ax=ax, coord_axes=coord_axes, mig_pairs=mig_pairs,
                              nu=nu, gamma=gam, h=hh, vfunc=mv.group(1), z0=z0, z1=z1, n0=n0, n1=n1,
                              okfirst=okfirst, oklast=oklast, okint=okint, strides_ok=strides_ok and idx_ok,
@@ -701,6 +707,634 @@ def gen_driver_wiring(src, fns, path):
     out.append('def copiesOnEntry : List (String × Bool) := [\n' + ',\n'.join(effects) + '\n]')
     return '\n'.join(out)
 
+# ----------------------------------------------------------------------------------------
+# Signatures of the compiled kernels as the Python drivers see them:
+#   driver call  --(Python argument binding)-->  wrapper `def` in integration_c.pyx
+#                --(positional)-->  C function in integration{d}D.c  --(names used in its body)--> role
+# Every hop is emitted as a table of NAMES; the composition is done in Lean (Model/Integrate.lean, `Prog.resolve`).
+# ----------------------------------------------------------------------------------------
+def lstr(s):
+    return json.dumps(s, ensure_ascii=False)
+
+def llist(xs):
+    return '[' + ', '.join(xs) + ']'
+
+def _pyx_wrappers(path):
+    """name -> (parameter names, normalised argument texts of the single C call) for every `def` of a .pyx"""
+    if not os.path.exists(path):
+        raise TranslateError('%s not found' % os.path.basename(path))
+    src = re.sub(r'#[^\n]*', '', open(path).read())
+    out = {}
+    for m in re.finditer(r'^def\s+(\w+)\s*\((.*?)\)\s*:(.*?)(?=^def\s|\Z)', src, flags=re.S | re.M):
+        name, params, body = m.group(1), m.group(2), m.group(3)
+        pn = []
+        for a in params.split(','):
+            a = a.strip()
+            if not a: continue
+            if '=' in a: raise TranslateError('%s: default value in wrapper signature' % name)
+            pn.append(a.split()[-1])
+        calls = re.findall(r'\bc_(\w+)\s*\((.*?)\)\s*\n', body, flags=re.S)
+        if len(calls) != 1:
+            raise TranslateError('%s: wrapper %s does not consist of one C call' % (os.path.basename(path), name))
+        cname, al = calls[0]
+        args = []
+        for a in al.split(','):
+            a = re.sub(r'\s+', '', re.sub(r'<\s*double\s*\*\s*>', '', a))
+            mm = re.match(r'^(\w+)\.shape\[(\d+)\]$', a)
+            if re.match(r'^-?\d+$', a): args.append('(.lit %s)' % a)
+            elif re.match(r'^[A-Za-z_]\w*$', a): args.append('(.param %s)' % lstr(a))
+            elif re.match(r'^[A-Za-z_]\w*\.data$', a): args.append('(.data %s)' % lstr(a[:-5]))
+            elif re.match(r'^[A-Za-z_]\w*\.size$', a): args.append('(.size %s)' % lstr(a[:-5]))
+            elif mm: args.append('(.shape %s %s)' % (lstr(mm.group(1)), mm.group(2)))
+            else: args.append('(.other %s)' % lstr(a))
+        rets = re.findall(r'^\s*return\s+(\w+)\s*$', body, flags=re.M)
+        out[name] = (pn, cname, args, rets[-1] if rets else None)
+    return out
+
+KERNEL_SIG_TYPE = '''/-- what a Cython wrapper passes to the C function: one of its own parameters, the data pointer of one, an extent, a literal -/
+inductive PyxArg where
+  | param (n : String) | data (n : String) | shape (n : String) (i : Nat) | size (n : String) | lit (v : Int) | other (s : String)
+deriving DecidableEq, Repr
+structure KernelSig where
+  name : String
+  d : Nat
+  ax : Nat
+  pre : Bool
+  pyxParams : List String
+  pyxCall : List PyxArg
+  pyxReturns : String
+  cParams : List String
+  rolePhi : String
+  roleGrids : List String
+  roleNu : String
+  roleMig : List (String × Nat)
+  roleGamma : String
+  roleH : String
+  roleBeta : Option String
+  roleDt : String
+  roleDelj : String
+  roleCoef : List String
+  roleDims : List String
+deriving DecidableEq, Repr'''
+
+def gen_kernel_sigs():
+    """`kernelSigs`: for each of the 15 on-the-fly kernels, the 5 pre-computed-coefficient kernels and `tridiag`: the wrapper's
+    parameter names, what it passes to the C function, the C function's parameter names, and which C parameter plays which
+    role in the body (size → Vfunc, migration rate paired with which coordinate → Mfunc, gamma, h, dt → compute_abc_nobc and
+    the right-hand side, switch → compute_delj)."""
+    pyx = _pyx_wrappers(os.path.join(REPO, 'dadi', 'integration_c.pyx'))
+    items = []
+    def emit(**k):
+        items.append('  { name := %s, d := %d, ax := %d, pre := %s, pyxParams := %s, pyxCall := %s, pyxReturns := %s, cParams := %s,\n'
+                     '    rolePhi := %s, roleGrids := %s, roleNu := %s, roleMig := %s, roleGamma := %s, roleH := %s, roleBeta := %s,\n'
+                     '    roleDt := %s, roleDelj := %s, roleCoef := %s, roleDims := %s }'
+                     % (lstr(k['name']), k['d'], k['ax'], 'true' if k['pre'] else 'false', llist(map(lstr, k['pyxParams'])),
+                        llist(k['pyxCall']), lstr(k['pyxReturns'] or ''), llist(map(lstr, k['cParams'])), lstr(k['phi']),
+                        llist(map(lstr, k['grids'])), lstr(k['nu']), llist('(%s, %d)' % (lstr(a), b) for a, b in k['mig']),
+                        lstr(k['gamma']), lstr(k['h']), ('some %s' % lstr(k['beta'])) if k['beta'] else 'none',
+                        lstr(k['dt']), lstr(k['delj']), llist(map(lstr, k['coef'])), llist(map(lstr, k['dims']))))
+    DIMN = ['L', 'M', 'N', 'O', 'P']
+    for d in range(1, 6):
+        for ax in range(d):
+            r = _KERNEL_ROLES.get((d, ax))
+            if r is None: raise TranslateError('kernel roles (%d,%d)' % (d, ax))
+            name = r['name']; body = r['body']
+            if name not in pyx: raise TranslateError('integration_c.pyx: wrapper %s not found' % name)
+            pn, cname, cargs, ret = pyx[name]
+            if cname != name: raise TranslateError('integration_c.pyx: %s calls %s' % (name, cname))
+            cpar = [a[0] for a in r['args']]
+            m1 = re.search(r'compute_abc_nobc\(\s*d\w\s*,\s*dfactor\s*,\s*delj\s*,\s*MInt\s*,\s*V\s*,\s*(\w+)\s*,', body)
+            m2 = re.findall(r'r\[\w\w\] = phi\[[^\]]*\]/(\w+);', body)
+            m3 = re.search(r'compute_delj\(\s*d\w\s*,\s*MInt\s*,\s*VInt\s*,\s*\w+\s*,\s*delj\s*,\s*(\w+)\s*\)', body)
+            if not (m1 and m2 and m3) or any(x != m1.group(1) for x in m2):
+                raise TranslateError('%s: dt / delj switch usage' % name)
+            beta = r['vargs'][2] if (r['vfunc'] == 'Vfunc_beta' and len(r['vargs']) > 2) else None
+            grids = GRIDN[:d]
+            for g in grids:
+                if g not in cpar: raise TranslateError('%s: grid parameter %s' % (name, g))
+            emit(name=name, d=d, ax=ax, pre=False, pyxParams=pn, pyxCall=cargs, pyxReturns=ret, cParams=cpar, phi='phi', grids=grids,
+                 nu=r['nu'], mig=list(zip(r['migs'], r['coord_axes'])), gamma=r['gamma'], h=r['h'], beta=beta, dt=m1.group(1),
+                 delj=m3.group(1), coef=[], dims=DIMN[:d])
+    for d in (2, 3):
+        cf = c_functions(os.path.join(REPO, 'dadi', 'integration%dD.c' % d))
+        for ax in range(d):
+            name = 'implicit_precalc_%dD%s' % (d, AXN[ax])
+            if name not in cf or name not in pyx: raise TranslateError('%s not found' % name)
+            args, body = cf[name]
+            body1 = re.sub(r'\s+', ' ', body)
+            cpar = [a[0] for a in args]
+            pn, cname, cargs, ret = pyx[name]
+            if cname != name: raise TranslateError('integration_c.pyx: %s calls %s' % (name, cname))
+            mb = re.search(r'\bb\[\w\w\] = (\w+)\[[^\]]*\] \+ 1\.?/(\w+);', body1)
+            mr = re.search(r'\br\[\w\w\] = 1\.?/(\w+) \* phi\[', body1)
+            ma = re.search(r'\ba\[\w\w\] = (\w+)\[', body1); mc = re.search(r'\bc\[\w\w\] = (\w+)\[', body1)
+            mt = re.search(r'tridiag_premalloc\(\s*(&?\w+)(?:\[[^\]]*\])?\s*,\s*b\s*,\s*(&?\w+)(?:\[[^\]]*\])?\s*,\s*r\s*,', body1)
+            if not (mb and mr and mt) or mb.group(2) != mr.group(1):
+                raise TranslateError('%s: body shape' % name)
+            A = ma.group(1) if (ma and mt.group(1) == 'a') else (mt.group(1)[1:] if mt.group(1).startswith('&') else None)
+            Cc = mc.group(1) if (mc and mt.group(2) == 'c') else (mt.group(2)[1:] if mt.group(2).startswith('&') else None)
+            if A is None or Cc is None: raise TranslateError('%s: a/c arrays' % name)
+            emit(name=name, d=d, ax=ax, pre=True, pyxParams=pn, pyxCall=cargs, pyxReturns=ret, cParams=cpar, phi='phi', grids=[],
+                 nu='', mig=[], gamma='', h='', beta=None, dt=mb.group(2), delj='', coef=[A, mb.group(1), Cc], dims=DIMN[:d])
+    tp = _pyx_wrappers(os.path.join(REPO, 'dadi', 'tridiag_cython.pyx'))
+    tf_ = c_functions(os.path.join(REPO, 'dadi', 'tridiag.c'))
+    if 'tridiag' not in tp or 'tridiag' not in tf_: raise TranslateError('tridiag wrapper')
+    pn, cname, cargs, ret = tp['tridiag']
+    emit(name='tridiag', d=1, ax=0, pre=True, pyxParams=pn, pyxCall=cargs, pyxReturns=ret, cParams=[a[0] for a in tf_['tridiag'][0]],
+         phi='r', grids=[], nu='', mig=[], gamma='', h='', beta=None, dt='', delj='', coef=['a', 'b', 'c'], dims=['n'])
+    return KERNEL_SIG_TYPE + '\ndef kernelSigs : List KernelSig := [\n' + ',\n'.join(items) + '\n]'
+
+# ----------------------------------------------------------------------------------------
+# Driver programs: the time loops of one_pop … five_pops and _one/_two/_three_pops_const_params, statement by statement
+# ----------------------------------------------------------------------------------------
+PROG_TYPES = '''/-! ### driver programs (time loops translated statement by statement) -/
+inductive Param where
+  | nu (k : Nat) | gamma (k : Nat) | h (k : Nat) | m (k l : Nat) | theta0 | beta
+deriving DecidableEq, Repr
+inductive Flag where
+  | frozen (k : Nat) | nomut (k : Nat)
+deriving DecidableEq, Repr
+inductive TVar where
+  | cur | next | init
+deriving DecidableEq, Repr
+inductive DtVar where
+  | dt | thisDt
+deriving DecidableEq, Repr
+/-- time arithmetic: `current_t`/`next_t`/`initial_t`, `dt`/`this_dt`, `T`, sums and differences -/
+inductive TExp where
+  | tv (v : TVar) | dtv (v : DtVar) | tEnd | add (a b : TExp) | sub (a b : TExp) | other (s : String)
+deriving DecidableEq, Repr
+/-- what a call argument denotes.  `slot p`: the local holding the current value of parameter p (evaluated from its function of
+    time, or the constant itself in the constant-parameter drivers); `raw p`: the argument as passed by the caller (possibly a
+    function); `coef w ax`: the pre-computed a/b/c (w = 0/1/2) array of axis ax; `bPlusInvDt`: `b + 1/this_dt`; `rhs`: `phi/this_dt` -/
+inductive Arg where
+  | slot (p : Param) | raw (p : Param) | dtv (v : DtVar) | grid | spacing | phi | flag (f : Flag) | delj
+  | coef (w ax : Nat) | bPlusInvDt (ax : Nat) (v : DtVar) | rhs (v : DtVar) | lit (n : Int) | tEnd | tInit | other (s : String)
+deriving DecidableEq, Repr
+/-- one argument of a call: keyword (or positional), a scalar (singleton) or a Python list display -/
+structure CallArg where
+  kw : Option String
+  isList : Bool
+  vals : List Arg
+deriving DecidableEq, Repr
+inductive Stmt where
+  | computeDt (calls : List (List CallArg))      -- dt = min(_compute_dt(…), …)
+  | capDt (args : List TExp)                     -- this_dt = min(…)
+  | setNext (e : TExp)                           -- next_t = …
+  | eval (p : Param) (t : TExp)                  -- <local of p> = p_f(t)
+  | check (what : String) (args : List Arg)      -- if numpy.any(numpy.<what>([…], 0)): raise
+  | inject (dim : Nat) (args : List CallArg)     -- _inject_mutations_<dim>D(…)
+  | kernel (guard : Option Arg) (fn : String) (args : List CallArg)   -- [if not <guard>:] phi = int_c.<fn>(…)
+  | rhsDiv (v : DtVar)                           -- r = phi/this_dt
+  | tridiag (args : List CallArg)                -- phi = tridiag.tridiag(a, b+1/this_dt, c, r)
+  | advance (e : TExp)                           -- current_t = … / current_t += …
+  | log                                          -- demes_hist.append(…)
+deriving DecidableEq, Repr
+inductive CmpOp where
+  | lt | le | gt | ge | ne
+deriving DecidableEq, Repr
+structure LoopCond where
+  lhs : TExp
+  op : CmpOp
+  rhs : TExp
+deriving DecidableEq, Repr
+structure DriverProgram where
+  fn : String
+  d : Nat
+  const : Bool
+  wraps : List Param            -- parameters turned into functions of time by `Misc.ensure_1arg_func`
+  prologue : List Stmt          -- statements on tracked names between entry and the loop (evaluations at the start time, dt of the constant drivers)
+  cond : LoopCond
+  body : List Stmt
+  returnsPhi : Bool
+deriving DecidableEq, Repr
+/-- the constant/time-dependent dispatch of `one_pop`/`two_pops`/`three_pops` -/
+structure Dispatch where
+  fn : String
+  d : Nat
+  vars : List Arg               -- `vars_to_check`
+  callee : String
+  args : List CallArg
+deriving DecidableEq, Repr'''
+
+def _lean_param(name, d):
+    if d == 1:
+        return {'nu': '(.nu 0)', 'gamma': '(.gamma 0)', 'h': '(.h 0)', 'theta0': '.theta0', 'beta': '.beta'}.get(name)
+    mm = re.match(r'^(nu|gamma|h)(\d)$', name)
+    if mm and 1 <= int(mm.group(2)) <= d: return '(.%s %d)' % (mm.group(1), int(mm.group(2)) - 1)
+    mm = re.match(r'^m(\d)(\d)$', name)
+    if mm and 1 <= int(mm.group(1)) <= d and 1 <= int(mm.group(2)) <= d and mm.group(1) != mm.group(2):
+        return '(.m %d %d)' % (int(mm.group(1)) - 1, int(mm.group(2)) - 1)
+    if name == 'theta0': return '.theta0'
+    return None
+
+def _lean_flag(name, d):
+    if d == 1:
+        return '(.frozen 0)' if name == 'frozen' else None
+    mm = re.match(r'^(frozen|nomut)(\d)$', name)
+    if mm and 1 <= int(mm.group(2)) <= d: return '(.%s %d)' % (mm.group(1), int(mm.group(2)) - 1)
+    return None
+
+class _DriverTr:
+    """symbolic walk over one driver: every local the schedule reads is tracked; a statement that touches a tracked name and is not
+    one of the forms of the driver language raises TranslateError"""
+    def __init__(self, fn, d, const, src, path):
+        self.fn = fn; self.d = d; self.const = const; self.src = src; self.path = path
+        self.env = {}
+        self.coefs = {}
+        self.wraps = []
+        for a in fn.args.args + fn.args.kwonlyargs:
+            n = a.arg
+            p = _lean_param(n, d); f = _lean_flag(n, d)
+            if p: self.env[n] = ('raw', p)
+            elif f: self.env[n] = ('flag', f)
+            elif n == 'phi': self.env[n] = ('phi',)
+            elif n == 'xx': self.env[n] = ('grid',)
+            elif n == 'T': self.env[n] = ('tEnd',)
+            elif n == 'initial_t': self.env[n] = ('tv', 'init')
+            else: self.env[n] = ('ignored',)
+        if const:
+            pat = r'^[abc]$' if d == 1 else r'^[abc][xyz]$'
+            for s in fn.body:
+                if isinstance(s, ast.AugAssign) and isinstance(s.target, ast.Subscript) and isinstance(s.target.value, ast.Name) \
+                   and re.match(pat, s.target.value.id):
+                    nm = s.target.value.id
+                    self.coefs[nm] = ('coef', 'abc'.index(nm[0]), 0 if d == 1 else 'xyz'.index(nm[1]))
+    def err(self, node, what):
+        raise TranslateError('%s (%s): %s: %s' % (self.fn.name, srcline(node, self.path), what,
+                                                   re.sub(r'\s+', ' ', ast.get_source_segment(self.src, node) or '')[:90]))
+    # ---- expressions
+    def lookup(self, name):
+        if name in self.env: return self.env[name]
+        if name in self.coefs: return self.coefs[name]
+        return None
+    def texp(self, node):
+        """-> (lean TExp, kind) with kind in 'time' | 'dur' | '?'"""
+        if isinstance(node, ast.Name):
+            v = self.lookup(node.id)
+            if v is None: return '(.other %s)' % lstr(node.id), '?'
+            if v[0] == 'tv': return '(.tv .%s)' % v[1], 'time'
+            if v[0] == 'dtv': return '(.dtv .%s)' % v[1], 'dur'
+            if v[0] == 'tEnd': return '.tEnd', 'time'
+            return '(.other %s)' % lstr(node.id), '?'
+        if isinstance(node, ast.BinOp) and isinstance(node.op, (ast.Add, ast.Sub)):
+            a, ka = self.texp(node.left); b, kb = self.texp(node.right)
+            add = isinstance(node.op, ast.Add)
+            if add: k = 'time' if sorted([ka, kb]) == ['dur', 'time'] else ('dur' if ka == kb == 'dur' else '?')
+            else: k = 'dur' if ka == kb and ka in ('time', 'dur') else ('time' if (ka, kb) == ('time', 'dur') else '?')
+            return '(.%s %s %s)' % ('add' if add else 'sub', a, b), k
+        return '(.other %s)' % lstr(ast.unparse(node)), '?'
+    def arg(self, node):
+        if isinstance(node, ast.Name):
+            v = self.lookup(node.id)
+            if v is None:
+                if node.id == 'use_delj_trick': return '.delj'
+                return '(.other %s)' % lstr(node.id)
+            k = v[0]
+            if k == 'raw': return '(.slot %s)' % v[1] if self.const else '(.raw %s)' % v[1]
+            if k == 'val': return '(.slot %s)' % v[1]
+            if k == 'flag': return '(.flag %s)' % v[1]
+            if k == 'dtv': return '(.dtv .%s)' % v[1]
+            if k == 'tv' and v[1] == 'init': return '.tInit'
+            if k in ('grid', 'spacing', 'phi', 'tEnd'): return '.' + k
+            if k == 'coef': return '(.coef %d %d)' % (v[1], v[2])
+            if k == 'rhs': return '(.rhs .%s)' % v[1]
+            if k == 'inval': self.err(node, 'local %s no longer holds the value it is used for' % node.id)
+            return '(.other %s)' % lstr(node.id)
+        if isinstance(node, ast.Constant) and isinstance(node.value, int) and not isinstance(node.value, bool):
+            return '(.lit %d)' % node.value
+        if isinstance(node, ast.BinOp) and isinstance(node.op, ast.Add) and isinstance(node.left, ast.Name):
+            v = self.lookup(node.left.id); r = node.right
+            if v and v[0] == 'coef' and isinstance(r, ast.BinOp) and isinstance(r.op, ast.Div) and isinstance(r.left, ast.Constant) \
+               and r.left.value == 1 and isinstance(r.right, ast.Name):
+                w = self.lookup(r.right.id)
+                if w and w[0] == 'dtv' and v[1] == 1: return '(.bPlusInvDt %d .%s)' % (v[2], w[1])
+        return '(.other %s)' % lstr(ast.unparse(node))
+    def callargs(self, call):
+        out = []
+        for a in call.args:
+            if isinstance(a, ast.Starred): self.err(call, 'starred argument')
+            if isinstance(a, (ast.List, ast.Tuple)):
+                out.append('⟨none, true, %s⟩' % llist(self.arg(e) for e in a.elts))
+            else:
+                out.append('⟨none, false, [%s]⟩' % self.arg(a))
+        for k in call.keywords:
+            if k.arg is None: self.err(call, '** argument')
+            if isinstance(k.value, (ast.List, ast.Tuple)):
+                out.append('⟨some %s, true, %s⟩' % (lstr(k.arg), llist(self.arg(e) for e in k.value.elts)))
+            else:
+                out.append('⟨some %s, false, [%s]⟩' % (lstr(k.arg), self.arg(k.value)))
+        return llist(out)
+    # ---- statements
+    def is_doc(self, s):
+        return isinstance(s, ast.Expr) and isinstance(s.value, ast.Constant) and isinstance(s.value.value, str)
+    def assigned_names(self, s):
+        names = set()
+        for n in ast.walk(s):
+            if isinstance(n, (ast.Assign, ast.AugAssign, ast.AnnAssign, ast.For, ast.NamedExpr, ast.withitem, ast.Delete)):
+                tg = n.targets if isinstance(n, (ast.Assign, ast.Delete)) else [getattr(n, 'target', None) or getattr(n, 'optional_vars', None)]
+                for t in tg:
+                    if t is None: continue
+                    for m in ast.walk(t):
+                        if isinstance(m, ast.Name) and not (isinstance(t, (ast.Subscript, ast.Attribute))): names.add(m.id)
+                        elif isinstance(m, ast.Name) and isinstance(t, (ast.Subscript, ast.Attribute)) and m is (t.value if hasattr(t, 'value') else None):
+                            names.add(m.id)
+            if isinstance(n, (ast.Import, ast.ImportFrom)):
+                for al in n.names: names.add((al.asname or al.name).split('.')[0])
+            if isinstance(n, (ast.FunctionDef, ast.ClassDef)): names.add(n.name)
+        return names
+    def bind_eval(self, target, call, stmts):
+        """<target> = <p>_f(<time>)"""
+        if not (isinstance(target, ast.Name) and isinstance(call, ast.Call) and isinstance(call.func, ast.Name)): return False
+        f = self.lookup(call.func.id)
+        if not (f and f[0] == 'fn'): return False
+        if len(call.args) != 1 or call.keywords: self.err(call, 'parameter function called with other than one argument')
+        p = f[1]
+        old = self.lookup(target.id)
+        if old is not None and old not in (('raw', p), ('val', p), ('inval',)):
+            self.err(target, 'local %s is re-used for parameter %s' % (target.id, p))
+        te, kind = self.texp(call.args[0])
+        for n, v in list(self.env.items()):
+            if n != target.id and v in (('raw', p), ('val', p)): self.env[n] = ('inval',)
+        self.env[target.id] = ('val', p)
+        stmts.append('.eval %s %s' % (p, te))
+        return True
+    def dt_calls(self, node):
+        """`_compute_dt(…)` or `min(_compute_dt(…), …)` -> list of call-arg lists, else None"""
+        if isinstance(node, ast.Call) and callee_name(node.func) == '_compute_dt':
+            return [self.callargs(node)]
+        if isinstance(node, ast.Call) and callee_name(node.func) in ('min', 'numpy.min') and not node.keywords:
+            elts = node.args[0].elts if (len(node.args) == 1 and isinstance(node.args[0], (ast.List, ast.Tuple))) else node.args
+            subs = [self.dt_calls(a) for a in elts]
+            if subs and all(s is not None for s in subs): return [c for s in subs for c in s]
+        return None
+    def has_dt_call(self, node):
+        return any(isinstance(n, ast.Call) and callee_name(n.func) == '_compute_dt' for n in ast.walk(node))
+    def set_role(self, name, val, node):
+        """a tracked role (dt, this_dt, next_t) lives in one local"""
+        for n, v in list(self.env.items()):
+            if v == val and n != name: self.env[n] = ('inval',)
+        old = self.lookup(name)
+        if old is not None and old not in (val, ('inval',)): self.err(node, 'local %s is re-used' % name)
+        self.env[name] = val
+    def schedule_stmt(self, s, stmts, in_loop):
+        """one statement of the driver language; returns False if `s` is not one (caller decides)"""
+        if isinstance(s, ast.Pass) or self.is_doc(s): return True
+        # --- calls for effect
+        if isinstance(s, ast.Expr) and isinstance(s.value, ast.Call):
+            cn = callee_name(s.value.func) or ''
+            m = re.match(r'^_inject_mutations_(\d)D$', cn)
+            if m:
+                stmts.append('.inject %s %s' % (m.group(1), self.callargs(s.value))); return True
+            if cn == 'demes_hist.append':
+                stmts.append('.log'); return True
+            return False
+        if isinstance(s, ast.AugAssign) and isinstance(s.target, ast.Name):
+            v = self.lookup(s.target.id)
+            if v == ('tv', 'cur') and isinstance(s.op, ast.Add):
+                te, kind = self.texp(s.value)
+                stmts.append('.advance (.add (.tv .cur) %s)' % te); return True
+            return False
+        if isinstance(s, ast.Assign):
+            if len(s.targets) != 1: return False
+            t = s.targets[0]; v = s.value
+            # tuple of parameter evaluations
+            if isinstance(t, ast.Tuple) and isinstance(v, ast.Tuple) and len(t.elts) == len(v.elts):
+                tmp = []
+                save = dict(self.env)
+                if all(self.bind_eval(a, b, tmp) for a, b in zip(t.elts, v.elts)):
+                    stmts.extend(tmp); return True
+                self.env = save
+                return False
+            if not isinstance(t, ast.Name): return False
+            if self.bind_eval(t, v, stmts): return True
+            old = self.lookup(t.id)
+            # time step
+            if self.has_dt_call(v):
+                calls = self.dt_calls(v)
+                if calls is None: self.err(s, 'time step is not min(_compute_dt(…), …)')
+                self.set_role(t.id, ('dtv', 'dt'), s)
+                stmts.append('.computeDt %s' % llist(calls)); return True
+            if old == ('tv', 'cur') or (old is not None and old[0] == 'tv' and old[1] == 'init' and False):
+                te, kind = self.texp(v)
+                stmts.append('.advance %s' % te); return True
+            if isinstance(v, ast.Call) and callee_name(v.func) in ('min', 'numpy.minimum') and not v.keywords and v.args and in_loop:
+                tes = [self.texp(a) for a in v.args]
+                if all(k == 'dur' for _, k in tes):
+                    self.set_role(t.id, ('dtv', 'thisDt'), s)
+                    stmts.append('.capDt %s' % llist(x for x, _ in tes)); return True
+                self.err(s, 'min over something else than durations')
+            # kernels
+            if isinstance(v, ast.Call):
+                cn = callee_name(v.func) or ''
+                if cn.startswith('int_c.'):
+                    if old != ('phi',): self.err(s, 'kernel result not assigned to the density')
+                    stmts.append('.kernel none %s %s' % (lstr(cn[6:]), self.callargs(v))); return True
+                if cn == 'tridiag.tridiag':
+                    if old != ('phi',): self.err(s, 'solver result not assigned to the density')
+                    stmts.append('.tridiag %s' % self.callargs(v)); return True
+                if re.match(r'^_inject_mutations_(\d)D$', cn) and old == ('phi',):
+                    stmts.append('.inject %s %s' % (cn[18], self.callargs(v))); return True
+            # r = phi/this_dt
+            if isinstance(v, ast.BinOp) and isinstance(v.op, ast.Div) and isinstance(v.left, ast.Name) and self.lookup(v.left.id) == ('phi',) \
+               and isinstance(v.right, ast.Name) and (self.lookup(v.right.id) or ('',))[0] == 'dtv' and in_loop:
+                w = self.lookup(v.right.id)
+                self.set_role(t.id, ('rhs', w[1]), s)
+                stmts.append('.rhsDiv .%s' % w[1]); return True
+            if in_loop:
+                te, kind = self.texp(v)
+                if kind == 'time':
+                    self.set_role(t.id, ('tv', 'next'), s)
+                    stmts.append('.setNext %s' % te); return True
+                if kind == 'dur':
+                    self.set_role(t.id, ('dtv', 'thisDt'), s)
+                    stmts.append('.capDt [%s]' % te); return True
+            return False
+        if isinstance(s, ast.If) and not s.orelse:
+            t = s.test
+            # guarded kernel
+            if isinstance(t, ast.UnaryOp) and isinstance(t.op, ast.Not) and isinstance(t.operand, ast.Name) and len(s.body) == 1:
+                g = self.lookup(t.operand.id)
+                tmp = []
+                if g and g[0] == 'flag' and self.schedule_stmt(s.body[0], tmp, in_loop) and len(tmp) == 1 and tmp[0].startswith('.kernel none '):
+                    stmts.append('.kernel (some (.flag %s)) ' % g[1] + tmp[0][len('.kernel none '):]); return True
+                return False
+            # raise-guards on the values
+            if isinstance(t, ast.Call) and callee_name(t.func) == 'numpy.any' and len(t.args) == 1 and isinstance(t.args[0], ast.Call) \
+               and len(s.body) == 1 and isinstance(s.body[0], ast.Raise):
+                c = t.args[0]; cn = callee_name(c.func) or ''
+                if cn in ('numpy.less', 'numpy.equal') and len(c.args) == 2 and isinstance(c.args[0], (ast.List, ast.Tuple)) \
+                   and isinstance(c.args[1], ast.Constant) and c.args[1].value == 0:
+                    stmts.append('.check %s %s' % (lstr(cn[6:]), llist(self.arg(e) for e in c.args[0].elts))); return True
+            return False
+        return False
+    def prologue_stmt(self, s, stmts):
+        if self.is_doc(s): return
+        if self.schedule_stmt(s, stmts, False): return
+        if isinstance(s, ast.Assign):
+            tg = s.targets; v = s.value
+            names = [t.id for t in tg if isinstance(t, ast.Name)]
+            if len(names) == len(tg):
+                src = self.lookup(v.id) if isinstance(v, ast.Name) else None
+                # phi = phi.copy(); xx = numpy.ascontiguousarray(xx); yy = xx; current_t = initial_t
+                if ast.unparse(s).replace(' ', '') in ('phi=phi.copy()', 'xx=numpy.ascontiguousarray(xx)'): return
+                if src == ('grid',):
+                    for n in names:
+                        if self.lookup(n) not in (None, ('grid',)): self.err(s, 'grid alias overwrites %s' % n)
+                        self.env[n] = ('grid',)
+                    return
+                if src == ('tv', 'init') and len(names) == 1:
+                    self.set_role(names[0], ('tv', 'cur'), s); return
+                if isinstance(v, ast.Call) and callee_name(v.func) == 'Misc.ensure_1arg_func' and len(v.args) == 1 and isinstance(v.args[0], ast.Name) and len(names) == 1:
+                    r = self.lookup(v.args[0].id)
+                    if r and r[0] == 'raw' and self.lookup(names[0]) is None:
+                        self.env[names[0]] = ('fn', r[1]); self.wraps.append(r[1]); return
+                    self.err(s, 'ensure_1arg_func of something else than a parameter')
+                if isinstance(v, ast.Call) and callee_name(v.func) == 'numpy.diff' and len(v.args) == 1 and isinstance(v.args[0], ast.Name) \
+                   and self.lookup(v.args[0].id) == ('grid',) and len(names) == 1 and self.lookup(names[0]) in (None, ('spacing',)):
+                    self.env[names[0]] = ('spacing',); return
+            if len(tg) == 1 and isinstance(tg[0], ast.Tuple) and isinstance(v, ast.Tuple) and len(tg[0].elts) == len(v.elts):
+                for a, b in zip(tg[0].elts, v.elts):
+                    self.prologue_stmt(ast.copy_location(ast.Assign(targets=[a], value=b), s), stmts)
+                return
+        if isinstance(s, ast.If) and isinstance(s.test, ast.Name) and s.test.id == 'cuda_enabled' and not s.orelse:
+            return          # CUDA path: not modelled (cuda_enabled is False unless dadi.cuda_enabled(True) was called)
+        touched = self.assigned_names(s) & (set(self.env) - set(n for n, v in self.env.items() if v == ('ignored',)))
+        if touched:
+            self.err(s, 'statement outside the driver language assigns %s' % ','.join(sorted(touched)))
+    def run(self):
+        body = self.fn.body
+        loops = [i for i, s in enumerate(body) if isinstance(s, ast.While)]
+        others = [n for s in body for n in ast.walk(s) if isinstance(n, (ast.While, ast.For, ast.AsyncFor))
+                  and not (isinstance(n, ast.While) and n in body)]
+        if len(loops) != 1:
+            raise TranslateError('%s: expected exactly one top-level `while` time loop, found %d' % (self.fn.name, len(loops)))
+        for n in others:
+            if self.assigned_names(n) & set(k for k, v in self.env.items() if v != ('ignored',)):
+                self.err(n, 'another loop assigns tracked names')
+        li = loops[0]; loop = body[li]
+        pro = []
+        for s in body[:li]:
+            self.prologue_stmt(s, pro)
+        if loop.orelse: self.err(loop, 'while … else')
+        t = loop.test
+        ops = {ast.Lt: 'lt', ast.LtE: 'le', ast.Gt: 'gt', ast.GtE: 'ge', ast.NotEq: 'ne'}
+        if not (isinstance(t, ast.Compare) and len(t.ops) == 1 and type(t.ops[0]) in ops):
+            self.err(loop, 'loop condition')
+        cond = '⟨%s, .%s, %s⟩' % (self.texp(t.left)[0], ops[type(t.ops[0])], self.texp(t.comparators[0])[0])
+        bd = []
+        for s in loop.body:
+            if not self.schedule_stmt(s, bd, True):
+                self.err(s, 'statement outside the driver language in the time loop')
+        ret = False
+        for s in body[li+1:]:
+            if isinstance(s, ast.Return):
+                ret = isinstance(s.value, ast.Name) and self.lookup(s.value.id) == ('phi',)
+                if s is not body[-1]: self.err(s, 'statements after return')
+            elif isinstance(s, ast.Expr) and isinstance(s.value, ast.Call) and (callee_name(s.value.func) or '') == 'Demes.cache.append':
+                pass
+            else:
+                self.err(s, 'statement after the time loop')
+        return ('  { fn := %s, d := %d, const := %s, wraps := %s,\n    prologue := %s,\n    cond := %s,\n    body := %s,\n    returnsPhi := %s }'
+                % (lstr(self.fn.name), self.d, 'true' if self.const else 'false', llist(self.wraps),
+                   '[' + ',\n      '.join(pro) + ']', cond, '[' + ',\n      '.join(bd) + ']', 'true' if ret else 'false'))
+
+def gen_driver_programs(src, fns, path):
+    out = [PROG_TYPES]
+    drivers = [('one_pop', 1, False), ('two_pops', 2, False), ('three_pops', 3, False), ('four_pops', 4, False), ('five_pops', 5, False),
+               ('_one_pop_const_params', 1, True), ('_two_pops_const_params', 2, True), ('_three_pops_const_params', 3, True)]
+    progs = []
+    for nm, d, const in drivers:
+        fn = fns.get(nm)
+        if fn is None: raise TranslateError(nm)
+        progs.append(_DriverTr(fn, d, const, src, path).run())
+    out.append('def driverPrograms : List DriverProgram := [\n' + ',\n'.join(progs) + '\n]')
+    # signatures the calls are bound against (parameter NAMES of the callees, from the source)
+    sigs = []
+    for d in range(1, 6):
+        fn = fns.get('_inject_mutations_%dD' % d)
+        if fn is None: raise TranslateError('_inject_mutations_%dD' % d)
+        if fn.args.vararg or fn.args.kwarg or fn.args.kwonlyargs: raise TranslateError('_inject_mutations_%dD: signature' % d)
+        def meaning(n, d=d):
+            if n == 'phi': return '.phi'
+            if n == 'dt': return '(.dtv .dt)'
+            if n in GRIDN[:d]: return '.grid'
+            if n == 'theta0': return '(.slot .theta0)'
+            f = _lean_flag(n, d) if d > 1 else None
+            if f: return '(.flag %s)' % f
+            return '(.other %s)' % lstr(n)
+        sigs.append('  (%d, %s)' % (d, llist('(%s, %s)' % (lstr(a.arg), meaning(a.arg)) for a in fn.args.args)))
+    out.append('/-- parameters of `_inject_mutations_<d>D`: name and what the name stands for inside the function (its guards `if not frozen<k>`\n'
+               '    are in `injectTerms`) -/\ndef injectSigs : List (Nat × List (String × Arg)) := [\n' + ',\n'.join(sigs) + '\n]')
+    fn = fns.get('_compute_dt')
+    out.append('/-- parameter names of `_compute_dt` -/\ndef computeDtSig : List String := %s' % llist(lstr(a.arg) for a in fn.args.args))
+    # dispatch to the constant-parameter drivers
+    disp = []; csigs = []
+    for nm, d, callee in (('one_pop', 1, '_one_pop_const_params'), ('two_pops', 2, '_two_pops_const_params'), ('three_pops', 3, '_three_pops_const_params')):
+        fn = fns[nm]
+        tr = _DriverTr(fn, d, False, src, path)
+        vars_ = None; call = None
+        for s in fn.body:
+            if isinstance(s, ast.Assign) and len(s.targets) == 1 and isinstance(s.targets[0], ast.Name) and s.targets[0].id == 'vars_to_check' \
+               and isinstance(s.value, (ast.List, ast.Tuple)):
+                vars_ = [tr.arg(e) for e in s.value.elts]
+            if isinstance(s, ast.If) and ast.unparse(s.test).replace(' ', '') == 'numpy.all([numpy.isscalar(var)forvarinvars_to_check])':
+                rets = [n for n in ast.walk(s) if isinstance(n, ast.Return) and isinstance(n.value, ast.Call)]
+                if len(rets) != 1 or callee_name(rets[0].value.func) != callee:
+                    raise TranslateError('%s: dispatch to %s' % (nm, callee))
+                call = rets[0].value
+                # the only conditions allowed on the way are on the CUDA switch
+                for n in ast.walk(s):
+                    if isinstance(n, ast.If) and n is not s and not set(x.id for x in ast.walk(n.test) if isinstance(x, ast.Name)) <= {'cuda_enabled', 'enable_cuda_cached'}:
+                        raise TranslateError('%s: condition inside the constant-parameter dispatch' % nm)
+        if vars_ is None or call is None: raise TranslateError('%s: constant-parameter dispatch not found' % nm)
+        disp.append('  { fn := %s, d := %d, vars := %s, callee := %s, args := %s }' % (lstr(nm), d, llist(vars_), lstr(callee), tr.callargs(call)))
+        cf = fns[callee]
+        ctr = _DriverTr(cf, d, False, src, path)      # meaning of each callee parameter: the same public names
+        csigs.append('  (%s, %s)' % (lstr(callee), llist('(%s, %s)' % (lstr(a.arg), ctr.arg(ast.Name(id=a.arg))) for a in cf.args.args)))
+    out.append('def dispatches : List Dispatch := [\n' + ',\n'.join(disp) + '\n]')
+    out.append('/-- parameters of the constant-parameter drivers: name and what it stands for -/\n'
+               'def constSigs : List (String × List (String × Arg)) := [\n' + ',\n'.join(csigs) + '\n]')
+    # parameters behind the pre-computed coefficient arrays: which of the driver's arguments enter V and M of each axis
+    pp = []
+    for nm, d in (('_one_pop_const_params', 1), ('_two_pops_const_params', 2), ('_three_pops_const_params', 3)):
+        fn = fns[nm]
+        tr = _DriverTr(fn, d, True, src, path)
+        for ax in range(d):
+            a = '' if d == 1 else 'xyz'[ax]
+            Vn = 'V' + a; Mn = 'M' + a
+            vcall = mcall = None
+            for s in fn.body:
+                if isinstance(s, ast.Assign) and len(s.targets) == 1 and isinstance(s.targets[0], ast.Name) and isinstance(s.value, ast.Call):
+                    if s.targets[0].id == Vn and callee_name(s.value.func) == '_Vfunc': vcall = s.value
+                    if s.targets[0].id == Mn and callee_name(s.value.func) == '_Mfunc%dD' % d: mcall = s.value
+            if vcall is None or mcall is None: raise TranslateError('%s: %s / %s' % (nm, Vn, Mn))
+            if len(vcall.args) != 2: raise TranslateError('%s: %s arguments' % (nm, Vn))
+            nu = tr.arg(vcall.args[1])
+            beta = None
+            for k in vcall.keywords:
+                if k.arg == 'beta': beta = tr.arg(k.value)
+                else: raise TranslateError('%s: %s keyword %s' % (nm, Vn, k.arg))
+            if mcall.keywords or len(mcall.args) != 2 * d + 1 - 1 + 1 - 1 + 0 and len(mcall.args) != 2 * (d - 1) + 3:
+                raise TranslateError('%s: %s arguments' % (nm, Mn))
+            coords = mcall.args[1:d]; migs = mcall.args[d:2 * d - 1]; gam, hh = mcall.args[2 * d - 1], mcall.args[2 * d]
+            pairs = []
+            for cnode, mnode in zip(coords, migs):
+                # the coordinate is `<grid>[nuax,…,:,…]`: the position of `:` is the axis it runs along
+                if not (isinstance(cnode, ast.Subscript) and isinstance(cnode.value, ast.Name)):
+                    raise TranslateError('%s: coordinate argument %s' % (nm, ast.unparse(cnode)))
+                sl = cnode.slice.elts if isinstance(cnode.slice, ast.Tuple) else [cnode.slice]
+                pos = [i for i, e in enumerate(sl) if isinstance(e, ast.Slice) and e.lower is None and e.upper is None and e.step is None]
+                if len(sl) != d or len(pos) != 1 or not all(isinstance(e, ast.Name) and e.id == 'nuax' for i, e in enumerate(sl) if i != pos[0]):
+                    raise TranslateError('%s: coordinate argument %s' % (nm, ast.unparse(cnode)))
+                pairs.append('(%s, %d)' % (tr.arg(mnode), pos[0]))
+            pp.append('  (%d, %d, %s, %s, %s, %s, %s)' % (d, ax, nu, llist(pairs), tr.arg(gam), tr.arg(hh), ('some %s' % beta) if beta else 'none'))
+    out.append('/-- constant-parameter drivers: (d, axis, size, [(migration rate, coordinate axis it multiplies)], gamma, h, beta) entering the\n'
+               '    pre-computed coefficients of that axis (arguments of `V<ax> = _Vfunc(…)`, `M<ax> = _Mfunc<d>D(…)`) -/\n'
+               'def preParams : List (Nat × Nat × Arg × List (Arg × Nat) × Arg × Arg × Option Arg) := [\n' + ',\n'.join(pp) + '\n]')
+    return '\n'.join(out)
+
+
 GENERATORS = {'Coeffs': gen_coeffs}
 
 def _discover():
@@ -719,6 +1353,18 @@ def _discover():
             sys.stderr.write('translate: skipping %s (%r)\n' % (modname, e))
 _discover()
 
+def _generate_from(repo, g):
+    """run generator g against another tree (None if that fails too)"""
+    global REPO
+    saved = REPO
+    REPO = repo
+    try:
+        return g()
+    except Exception:
+        return None
+    finally:
+        REPO = saved
+
 def write_all(which=None, gen_dir=GEN_DIR):
     """returns dict name -> None (ok) or error string.  A failing generator leaves a stub file
     that defines `translateFailed_<name> : String` so that dependants fail to build loudly."""
@@ -734,6 +1380,15 @@ def write_all(which=None, gen_dir=GEN_DIR):
             # file in place if there is one, so that the model still builds and the correspondence / failing-input
             # search can run; only if there is none write a stub that makes dependants fail loudly.
             res[name] = str(e)
+            if name == 'Coeffs' and os.path.realpath(REPO) != os.path.realpath('/repo') and os.path.isdir('/repo/dadi'):
+                # a trial against another tree (seeded change, patched copy): the file in place may stem from yet another tree (the
+                # parallel seed runner re-uses its private copies) — fall back to the definitions of the pinned tree instead
+                text = _generate_from('/repo', g)
+                if text is not None:
+                    old = open(path).read() if os.path.exists(path) else None
+                    if old != text:
+                        with open(path, 'w') as f: f.write(text)
+                    continue
             if os.path.exists(path) and 'translateFailed_' not in open(path).read():
                 continue
             text = HEADER + '/-- translation failed: %s -/\ndef translateFailed_%s : String := %s\nend DadiVerif\n' % (
